@@ -6,9 +6,10 @@ from lockstep import run_impl, run_model, first_diff, shrink
 
 # property -> store/edge families whose correspondence it depends on
 STORE_FAMILIES = {
-    "C01": ["pos", "buf", "bufedge"], "C02": ["pos", "buf", "bufedge"], "C04": ["pos", "buf", "bufedge"],
-    "C05": ["pos", "buf", "prq"], "C06": ["pos", "buf", "bufedge"], "C07": ["pos", "buf", "bufedge"],
-    "C10": ["pos", "buf"], "C11": ["bufedge", "buf"], "C18": ["pos", "bufedge"], "C19": ["pos", "buf"], "C20": ["prq"],
+    "C01": ["pos", "buf", "bufedge", "fleet"], "C02": ["pos", "buf", "bufedge", "fleet"], "C04": ["pos", "buf", "bufedge", "fleet"],
+    "C05": ["pos", "buf", "prq"], "C06": ["pos", "buf", "bufedge", "fleet"], "C07": ["pos", "buf", "bufedge", "fleet"],
+    "C10": ["pos", "buf"], "C11": ["bufedge", "buf"], "C14": ["fleet"], "C18": ["pos", "bufedge", "fleet"], "C19": ["pos", "buf"],
+    "C20": ["prq", "fleet"],
 }
 # judge property ids that decide each property at store level
 JUDGE_PROPS = {p: [p] for p in STORE_FAMILIES}
